@@ -16,7 +16,8 @@ def run(ctx):
     ctx.rule("R11-1", "text derived from CommandResult.stdout reaches a Regex::replace* template only through "
                       "`$` -> `$$` escaping or NoExpand")
     ctx.rule("R11-2", "the spliced output never flows back into should_do_dollar_command_extension / the `$(` regex")
-    ctx.rule("R11-3", "the `$(` rewrite loop has no cycle path that leaves the line unchanged (unparsable inner command)")
+    ctx.rule("R11-3", "never a hang: the `$(` rewrite loop and the backquote rewrite loop have no cycle path that leaves "
+                      "what their exit tests read unchanged (unparsable inner command)")
     ctx.rule("R11-4", "each substitution site calls run_pipeline(.., capture = true, ..) and gives the terminal back")
     ctx.rule("R11-6", "the rewritten word keeps the text around the substitution: the new line is produced by "
                       "Regex::replace* on the old line (which keeps unmatched text), not assembled from capture groups of "
